@@ -6,6 +6,7 @@ import (
 	"strings"
 
 	"github.com/fluffle/goirc/client"
+	"github.com/fluffle/goirc/state"
 
 	"verif/explore"
 	"verif/vx"
@@ -31,9 +32,11 @@ type c16Params struct {
 	Value   string // panic value kind: string | error | struct
 	Custom  bool   // custom recovery hook instead of the default LogPanic
 	NEvents int
-	Late    bool // the custom hook is installed through Config() after every handler is registered and the client is connected
-	LoneBG  bool // the misbehaving background handler is the only background handler on its verb
-	Churn   bool // a well-behaved foreground handler registers a background handler at every event and removes the one it registered before
+	Late    bool   // the custom hook is installed through Config() after every handler is registered and the client is connected
+	LoneBG  bool   // the misbehaving background handler is the only background handler on its verb
+	Depth   int    // the panic is raised this many calls below the handler (0 = in the handler itself)
+	Literal string // "" = NewConfig | nil-me, empty-nick, empty-ident: the Config is a struct literal whose identity Client() has to repair
+	Churn   bool   // a well-behaved foreground handler registers a background handler at every event and removes the one it registered before
 }
 
 func (p c16Params) name() string {
@@ -46,6 +49,12 @@ func (p c16Params) name() string {
 	}
 	if p.LoneBG {
 		n += "/lone-bg"
+	}
+	if p.Depth > 0 {
+		n += fmt.Sprintf("/depth=%d", p.Depth)
+	}
+	if p.Literal != "" {
+		n += "/config-literal=" + p.Literal
 	}
 	return n
 }
@@ -70,7 +79,7 @@ func c16Scenario(p c16Params) *explore.Scenario {
 	sc := &explore.Scenario{
 		Family: "misbehave",
 		Name:   p.name(),
-		Params: map[string]interface{}{"who": p.Who, "at": p.At, "events": p.NEvents, "value": p.Value, "custom": p.Custom, "late": p.Late, "churn": p.Churn, "lone_bg": p.LoneBG},
+		Params: map[string]interface{}{"who": p.Who, "at": p.At, "events": p.NEvents, "value": p.Value, "custom": p.Custom, "late": p.Late, "churn": p.Churn, "lone_bg": p.LoneBG, "depth": p.Depth, "literal": p.Literal},
 		Opt:    vx.Options{MaxSteps: 400000},
 	}
 	// the event sequence: PRIVMSGs numbered 0..n-1; a built-in handler is driven into a panic by an extra
@@ -96,11 +105,39 @@ func c16Scenario(p c16Params) *explore.Scenario {
 				vx.Observe("ev", fmt.Sprintf("recovered cmd=%s value=%v type=%T", line.Cmd, r, r))
 			}
 		}
-		c := NewClient("me", func(cfg *client.Config) {
+		var c *client.Conn
+		if p.Literal == "" {
+			c = NewClient("me", func(cfg *client.Config) {
+				if p.Custom && !p.Late {
+					cfg.Recover = hook
+				}
+			})
+		} else {
+			// a hand-built Config: Client() repairs the identity and must leave everything else alone
+			cfg := &client.Config{Server: "irc.example:6667", Proxy: "verif://proxy", Flood: true, NewNick: client.DefaultNewNick, Recover: (*client.Conn).LogPanic}
+			switch p.Literal {
+			case "empty-nick":
+				cfg.Me = &state.Nick{Ident: "ident", Name: "Real Name"}
+			case "empty-ident":
+				cfg.Me = &state.Nick{Nick: "me", Name: "Real Name"}
+			}
 			if p.Custom && !p.Late {
 				cfg.Recover = hook
 			}
-		})
+			c = client.Client(cfg)
+			// (where to connect is written again through Config(), as an application may: the scenario is about
+			// the recovery function, not about what else a repaired Config keeps)
+			live := c.Config()
+			live.Server, live.Proxy, live.Flood = "irc.example:6667", "verif://proxy", true
+		}
+		var boom func(d int, v interface{})
+		boom = func(d int, v interface{}) {
+			if d <= 0 {
+				panic(v)
+			}
+			boom(d-1, v)
+			vx.ObserveNoPoint("ev", "unreachable") // keeps the call from becoming a tail call
+		}
 		evNo := func(line *client.Line) int {
 			var i int
 			fmt.Sscanf(line.Text(), "e%d", &i)
@@ -116,7 +153,7 @@ func c16Scenario(p c16Params) *explore.Scenario {
 			i := evNo(line)
 			vx.Observe("ev", fmt.Sprintf("enter fg-x e%d", i))
 			if p.Who == "fg" && i == p.At {
-				panic(c16PanicValue(p.Value))
+				boom(p.Depth, c16PanicValue(p.Value))
 			}
 			vx.Observe("ev", fmt.Sprintf("good fg-x e%d", i))
 		})
@@ -138,7 +175,7 @@ func c16Scenario(p c16Params) *explore.Scenario {
 		c.HandleBG("PRIVMSG", client.HandlerFunc(func(conn *client.Conn, line *client.Line) {
 			i := evNo(line)
 			if p.Who == "bg" && i == p.At {
-				panic(c16PanicValue(p.Value))
+				boom(p.Depth, c16PanicValue(p.Value))
 			}
 			if (p.Who == "bg-block" && i == p.At) || p.Who == "bg-block-all" {
 				vx.MarkByDesign()
@@ -331,6 +368,117 @@ func c16Scenario(p c16Params) *explore.Scenario {
 	return sc
 }
 
+// c16LifecycleScenario: the misbehaving handler sits on one of the events the client generates itself (REGISTER,
+// CONNECTED, DISCONNECTED), registered FIRST of three foreground resp. two background handlers; its siblings
+// still get the event, the panic reaches the recovery function, and the session goes on (two connections).
+func c16LifecycleScenario(event, who string, custom bool) *explore.Scenario {
+	sc := &explore.Scenario{
+		Family: "misbehave",
+		Name:   fmt.Sprintf("misbehave-lifecycle/%s/%s/custom=%v", event, who, custom),
+		Params: map[string]interface{}{"event": event, "who": who, "custom": custom},
+		Opt:    vx.Options{MaxSteps: 400000},
+	}
+	sc.Main = func(env *vx.Env) {
+		c := NewClient("me", func(cfg *client.Config) {
+			if custom {
+				cfg.Recover = func(conn *client.Conn, line *client.Line) {
+					if r := recover(); r != nil {
+						vx.Observe("ev", fmt.Sprintf("recovered cmd=%s value=%v", line.Cmd, r))
+					}
+				}
+			}
+		})
+		mk := func(id string, bad bool) client.HandlerFunc {
+			return func(conn *client.Conn, line *client.Line) {
+				if bad {
+					panic("boom-" + id)
+				}
+				vx.Observe("ev", "good "+id)
+			}
+		}
+		c.HandleFunc(event, mk("fg-x", who == "fg"))
+		c.HandleFunc(event, mk("fg-a", false))
+		c.HandleFunc(event, mk("fg-b", false))
+		c.HandleBG(event, mk("bg-x", who == "bg"))
+		c.HandleBG(event, mk("bg-a", false))
+		for cycle := 0; cycle < 2; cycle++ {
+			var vc *vx.Conn
+			env.ConnSetup = func(x *vx.Conn) { vc = x }
+			if err := c.Connect(); err != nil {
+				vx.Observe("ev", "connect-failed "+err.Error())
+				return
+			}
+			vx.Quiesce()
+			vc.SendLines(welcome, "PING :still-alive")
+			vx.Quiesce()
+			vx.Observe("ev", fmt.Sprintf("up connected=%v pong=%v", c.Connected(), HasLine(vc.Lines(), "PONG :still-alive")))
+			vc.EOF()
+			vx.Quiesce()
+			vx.Observe("ev", fmt.Sprintf("down connected=%v", c.Connected()))
+		}
+	}
+	sc.Check = func(o *vx.Outcome) []explore.Finding {
+		if fs := stdOutcome(o); fs != nil {
+			return fs
+		}
+		var fs []explore.Finding
+		ev := o.Log("ev")
+		bad := func(id, msg string) {
+			fs = append(fs, explore.Finding{Oracle: id, Msg: msg + " :: " + strings.Join(ev, "; ")})
+		}
+		cnt := func(s string) int {
+			n := 0
+			for _, r := range ev {
+				if r == s {
+					n++
+				}
+			}
+			return n
+		}
+		for _, h := range []string{"fg-x", "fg-a", "fg-b", "bg-x", "bg-a"} {
+			want := 2
+			if h == who+"-x" {
+				want = 0
+			}
+			if cnt("good "+h) != want {
+				bad("sibling-not-delivered", fmt.Sprintf("handler %s on %s completed %d times over two connections, expected %d", h, event, cnt("good "+h), want))
+			}
+		}
+		if cnt("up connected=true pong=true") != 2 || cnt("down connected=false") != 2 {
+			bad("later-event-not-delivered", "the two connections did not both come up, answer a PING and go down")
+		}
+		if custom {
+			n := 0
+			for _, r := range ev {
+				if strings.HasPrefix(r, "recovered ") {
+					n++
+					if !strings.HasSuffix(r, "value=boom-"+who+"-x") {
+						bad("recover-value", "the recovery function did not receive the panic value: "+r)
+					}
+				}
+			}
+			if n != 2 {
+				bad("recover-count", fmt.Sprintf("the configured recovery function recovered %d panics, expected 2", n))
+			}
+		} else {
+			n := 0
+			for _, l := range o.Logs {
+				if strings.Contains(fmt.Sprintf(l.Format, l.Args...), "boom-"+who+"-x") {
+					n++
+				}
+			}
+			if n < 2 {
+				bad("panic-not-logged", fmt.Sprintf("the default recovery logged %d records showing the panic value, expected at least 2", n))
+			}
+		}
+		if leaks := ClientLeaks(o); len(leaks) > 0 {
+			bad("leak", "tasks left at the end: "+strings.Join(leaks, " | "))
+		}
+		return fs
+	}
+	return sc
+}
+
 // c16TrackingRaceScenario: the one way to make the built-in 001 handler panic is to switch state tracking off
 // between two of its statements (the library does not synchronise the two). Whether it panics or not, CONNECTED
 // and every later event are delivered. Statement-granularity scheduling on Conn while the welcome is processed.
@@ -408,7 +556,7 @@ func c16TrackingRaceScenario(custom bool) *explore.Scenario {
 func init() {
 	Register(&Prop{
 		ID:   "C16",
-		Rule: "event sequences of 2-4 PRIVMSGs with three foreground and two background user handlers; at one event one handler misbehaves: user foreground / user background panics with a string, error or struct value or a nil pointer whose Error / String method would panic, a built-in handler (PING without token, 433 without arguments, CAP with one argument) panics on its own input, or a background handler blocks for ever (next to a well-behaved one, or alone on its verb); default LogPanic or a custom recovery hook (set in the Config given to Client, or through Config() after all handlers are registered); optionally a foreground handler that registers a background handler at every event and removes the previous one; every execution within the deviation budgets; distinct = distinct canonical observation per scenario",
+		Rule: "event sequences of 2-4 PRIVMSGs with three foreground and two background user handlers; at one event one handler misbehaves: user foreground / user background panics with a string, error or struct value or a nil pointer whose Error / String method would panic, a built-in handler (PING without token, 433 without arguments, CAP with one argument) panics on its own input, or a background handler blocks for ever (next to a well-behaved one, or alone on its verb); default LogPanic or a custom recovery hook (set in the Config given to Client, or through Config() after all handlers are registered); optionally a foreground handler that registers a background handler at every event and removes the previous one; the panic raised 40 / 300 calls below the handler; the Config a struct literal with nil Me / empty nick / empty ident (Client() repairs the identity); a handler registered first on REGISTER / CONNECTED / DISCONNECTED that panics at both of two connections; every execution within the deviation budgets; distinct = distinct canonical observation per scenario",
 		Assumptions: []string{
 			"interleavings at synchronisation/channel/socket granularity (DESIGN.md 3.8); statement granularity on Conn in the one scenario that races DisableStateTracking() against the built-in 001 handler",
 			"panic(nil) is left out: its meaning depends on the module's go directive, which the instrumented copy changes",
@@ -458,6 +606,27 @@ func init() {
 				for _, val := range []string{"nil-error", "nil-stringer"} {
 					for _, custom := range []bool{false, true} {
 						add(c16Params{Who: who, At: 0, Value: val, Custom: custom, NEvents: 2})
+					}
+				}
+			}
+			// a panic raised far below the handler, and a Config literal whose identity Client() has to repair
+			for _, who := range []string{"fg", "bg"} {
+				for _, custom := range []bool{false, true} {
+					add(c16Params{Who: who, At: 0, Value: "string", Custom: custom, NEvents: 2, Depth: 40})
+					for _, lit := range []string{"nil-me", "empty-nick", "empty-ident"} {
+						if tier != "thorough" && lit == "empty-ident" && who == "bg" {
+							continue
+						}
+						add(c16Params{Who: who, At: 0, Value: "error", Custom: custom, NEvents: 2, Literal: lit})
+					}
+				}
+			}
+			add(c16Params{Who: "fg", At: 0, Value: "string", NEvents: 2, Depth: 300})
+			// misbehaving handlers on the events the client generates itself
+			for _, ev := range []string{client.REGISTER, client.CONNECTED, client.DISCONNECTED} {
+				for _, who := range []string{"fg", "bg"} {
+					for _, custom := range []bool{false, true} {
+						jobs = append(jobs, ExploreJob("C16", ExploreSpec{Sc: c16LifecycleScenario(ev, who, custom), Variants: []int{1, 2, 3}, Budgets: []explore.Budget{{0, 0}, {1, 0}}, Cache: true}, 20))
 					}
 				}
 			}
